@@ -25,23 +25,48 @@ _Static_assert(LONG_MAX == 9223372036854775807L && INT_MAX == 2147483647, "LP64 
 #endif
 
 /* ------------------------------------------------------------------------
- * Decimal value of the run of digits s[a..b)  (a < b, all digits).
- *   vp_dec_huge(s,a,b): the value does not fit an unsigned long
- *   vp_dec_mag(s,a,b):  the value (unspecified if huge)
+ * Numbers.  s[a..b) is a run of digits (a < b).
+ *
+ * vp_fits(s,a,b,ref): the number is <= ref (a string of digits without leading zeros).
+ * Decided on the digits, without arithmetic: fewer significant digits, or as many and
+ * lexicographically not greater.
+ * ------------------------------------------------------------------------ */
+static int vp_fits(const char *s, int a, int b, const char *ref, int reflen)
+{
+	int nsig = 0;            /* significant digits seen (leading zeros skipped) */
+	int cmp = 0;             /* the first nsig (<= reflen) of them compared with ref: -1, 0, 1 */
+	for (int k = 0; k < VP_N; k++) {
+		if (k < a || k >= b)
+			continue;
+		char c = s[k];
+		if (nsig == 0 && c == '0')
+			continue;
+		if (nsig < reflen && cmp == 0)
+			cmp = (c < ref[nsig]) ? -1 : (c > ref[nsig]) ? 1 : 0;
+		if (nsig <= reflen)
+			nsig++;
+	}
+	return nsig < reflen || (nsig == reflen && cmp <= 0);
+}
+#define vp_fits_int(s, a, b)        vp_fits((s), (a), (b), "2147483647", 10)
+/* |number| fits a long: <= LONG_MAX, or <= LONG_MAX + 1 with a '-' sign (strtol: else ERANGE) */
+#define vp_fits_long(s, a, b, neg)  vp_fits((s), (a), (b), (neg) ? "9223372036854775808" : "9223372036854775807", 19)
+
+/* vp_dec_mag(s,a,b): the decimal value of the run (unspecified if it does not fit an
+ * unsigned long).
  * version_parse does no arithmetic on digits itself (strtol does).  Under CBMC the
  * value of a run is therefore an UNINTERPRETED function of (the bytes of the run, a,
  * b), used by the strtol model and by the specification alike: what is proved holds
  * for every such function, in particular for the decimal value, and the SAT problem
  * loses the 64-bit multiply-add chains (measured at VP_N = 12: accept/refuse 5 s,
  * positions of the numbers 7 s, equality of the numbers 70-170 s with real
- * arithmetic).  No property of the decimal value is assumed.  -DVP_CONCRETE_ARITH
- * (thorough tier) and the native cross-check use the real arithmetic.
- * ------------------------------------------------------------------------ */
-#define VP_LIM(neg) ((neg) ? (unsigned long) LONG_MAX + 1UL : (unsigned long) LONG_MAX)
+ * arithmetic).  The two facts about the decimal value that are needed -- a number that
+ * vp_fits an int / a long is <= INT_MAX / LONG_MAX -- are built in by clamping, which is
+ * the identity on the real function: nothing is assumed.  -DVP_CONCRETE_ARITH
+ * (thorough tier) and the native cross-check use the real arithmetic. */
 #if defined(VERIF_CBMC) && !defined(VP_CONCRETE_ARITH)
 _Static_assert(VP_N >= 8 && VP_N <= 16, "vp_pack packs the string into two 64-bit words");
 unsigned long __CPROVER_uninterpreted_dec_mag(unsigned long w0, unsigned long w1, int a, int b);
-_Bool __CPROVER_uninterpreted_dec_huge(unsigned long w0, unsigned long w1, int a, int b);
 /* the bytes of s[a..b) at their own positions, everything else zero */
 static unsigned long vp_pack(const char *s, int a, int b, int word)
 {
@@ -51,67 +76,27 @@ static unsigned long vp_pack(const char *s, int a, int b, int word)
 			w |= ((unsigned long) (unsigned char) s[k]) << (8 * (k % 8));
 	return w;
 }
-/* Two facts about decimal numbers are built in by clamping (the identity on the real
- * function, so nothing is assumed): at most 9 digits => <= 999999999 (fits an int), at
- * most 18 digits => <= 10^18-1 (fits a long); and at most 19 digits => not huge. */
-static int vp_dec_huge(const char *s, int a, int b)
-{
-	return b - a > 19 && __CPROVER_uninterpreted_dec_huge(vp_pack(s, a, b, 0), vp_pack(s, a, b, 1), a, b);
-}
 static unsigned long vp_dec_mag(const char *s, int a, int b)
 {
 	unsigned long m = __CPROVER_uninterpreted_dec_mag(vp_pack(s, a, b, 0), vp_pack(s, a, b, 1), a, b);
-	if (b - a <= 9 && m > 999999999UL)
-		m = 999999999UL;
-	if (b - a <= 18 && m > 999999999999999999UL)
-		m = 999999999999999999UL;
+	if (m > (unsigned long) INT_MAX && vp_fits_int(s, a, b))
+		m = (unsigned long) INT_MAX;
+	if (m > (unsigned long) LONG_MAX && vp_fits_long(s, a, b, 0))
+		m = (unsigned long) LONG_MAX;
 	return m;
 }
 #else
-/* acc*10+d <= ULONG_MAX without a run-time division: ULONG_MAX = 10 * VP_Q + 5 */
-#define VP_Q 1844674407370955161UL
-_Static_assert(ULONG_MAX == 10UL * VP_Q + 5UL, "LP64 expected");
-#define VP_FITS_ULONG(acc, d) ((acc) < VP_Q || ((acc) == VP_Q && (d) <= 5UL))
-static int vp_dec_huge(const char *s, int a, int b)
-{
-	unsigned long acc = 0;
-	for (int k = 0; k < VP_N; k++) {
-		if (k < a || k >= b)
-			continue;
-		unsigned long d = (unsigned long) (s[k] - '0');
-		if (!VP_FITS_ULONG(acc, d))
-			return 1;
-		acc = acc * 10UL + d;
-	}
-	return 0;
-}
 static unsigned long vp_dec_mag(const char *s, int a, int b)
 {
 	unsigned long acc = 0;
 	for (int k = 0; k < VP_N; k++) {
 		if (k < a || k >= b)
 			continue;
-		unsigned long d = (unsigned long) (s[k] - '0');
-		if (!VP_FITS_ULONG(acc, d))
-			return 0;
-		acc = acc * 10UL + d;
+		acc = acc * 10UL + (unsigned long) (s[k] - '0');    /* wraps if it does not fit */
 	}
 	return acc;
 }
 #endif
-/* the run is a number that fits an int */
-static int vp_fits_int(const char *s, int a, int b)
-{
-#ifdef VP_EXP_NOFIT
-	return 1;
-#endif
-	return b - a <= 9 || (!vp_dec_huge(s, a, b) && vp_dec_mag(s, a, b) <= (unsigned long) INT_MAX);
-}
-/* the run, with a '-' sign if neg, does not fit a long (strtol: ERANGE) */
-static int vp_overflows_long(const char *s, int a, int b, int neg)
-{
-	return b - a > 18 && (vp_dec_huge(s, a, b) || vp_dec_mag(s, a, b) > VP_LIM(neg));
-}
 
 /* ------------------------------------------------------------------------
  * Trusted libc models.  Both are written position by position over the buffer being
@@ -215,13 +200,13 @@ long m_strtol(const char *nptr, char **endptr, int base)
 		m_conv_b[m_conv_n] = b;
 		m_conv_n++;
 	}
-	if (vp_overflows_long(m_base, a, b, neg)) {
+	if (!vp_fits_long(m_base, a, b, neg)) {
 		errno = ERANGE;
 		return neg ? LONG_MIN : LONG_MAX;
 	}
 	unsigned long mag = vp_dec_mag(m_base, a, b);
-	if (neg)
-		return mag == (unsigned long) LONG_MAX + 1UL ? LONG_MIN : -(long) mag;
+	if (neg)        /* fits with the sign but not without it: exactly LONG_MIN */
+		return !vp_fits_long(m_base, a, b, 0) ? LONG_MIN : -(long) mag;
 	return (long) mag;
 }
 
@@ -349,7 +334,7 @@ static struct vp_shape vp_shape_actual(const char *s)
  * and the result must not be negative.  -1 if refused. */
 static int vp_actual_value(const char *s, int a, int b, int neg)
 {
-	if (vp_overflows_long(s, a, b, neg))
+	if (!vp_fits_long(s, a, b, neg))
 		return -1;
 	unsigned long mag = vp_dec_mag(s, a, b);
 	unsigned int low = (unsigned int) ((neg ? 0UL - mag : mag) & 0xffffffffUL);
@@ -374,10 +359,9 @@ static int spec_actual(const char *s, int k)
 	return vp_accepted_shape(s, sh) ? vp_actual_value(s, sh.a[k], sh.b[k], sh.neg[k]) : -1;
 }
 
-/* every maximal run of digits has at most 9 digits, hence is a number that fits an int
- * (so that the conversion (int) strtol(..) in version_parse never narrows, whether the
- * string is accepted or not) */
-static int spec_runs_short(const char *s)
+/* every maximal run of digits is a number that fits an int (so that the conversion
+ * (int) strtol(..) in version_parse never narrows, whether the string is accepted or not) */
+static int spec_ints_fit(const char *s)
 {
 	int a = -1;
 	for (int i = 0; i < VP_N; i++) {
@@ -385,9 +369,9 @@ static int spec_runs_short(const char *s)
 		if (c >= '0' && c <= '9') {
 			if (a < 0)
 				a = i;
-			if (i - a >= 9)
-				return 0;
 		} else {
+			if (a >= 0 && !vp_fits_int(s, a, i))
+				return 0;
 			a = -1;
 		}
 		if (c == '\0')
@@ -406,11 +390,10 @@ static int spec_terminated(const char *s)
 }
 
 /* CARVE-OUT (finding "lenient version_parse"): the strings on which the two languages
- * differ, and those holding a number of 10 or more digits, which (int) strtol(..) may
- * narrow (L4; ten-digit numbers up to INT_MAX are the only harmless strings excluded) */
+ * differ, and those holding a number that (int) strtol(..) would narrow (L4) */
 static int spec_outside_finding(const char *s)
 {
-	return spec_wellformed(s) == spec_accepted(s) && spec_runs_short(s);
+	return spec_wellformed(s) == spec_accepted(s) && spec_ints_fit(s);
 }
 #define VP_COMPAT(w0, w1, h0, h1) ((w0) == (h0) && (w1) <= (h1))
 
